@@ -405,6 +405,9 @@ let handle_io (toks : string list) : string =
     let ty = sign_types.(int_of_string t) in
     Printf.sprintf "%s %s %s" (pn (sign_width ty)) (pn (sign_height ty)) (hex_of_bytes (create_page ty (num id)).p_bytes)
   | ["PT"; baud; cs; par; stop; flow; fail; ctor] ->
+    (* "~..." after the failure token: flavours of the instrumented device (stale reads, writes that forget the timeout);
+       the documented result does not depend on them *)
+    let fail = List.hd (String.split_on_char '~' fail) in
     (* a leading '?' (the device cannot report that field) concerns the harness's instrumented port only *)
     let strip s = if String.length s > 0 && s.[0] = '?' then String.sub s 1 (String.length s - 1) else s in
     let baud = strip baud and cs = strip cs and par = strip par and stop = strip stop and flow = strip flow in
